@@ -62,3 +62,138 @@ Proof.
       apply AE in Hj. destruct Hj as (e & He & Ha). rewrite (find_cfind _ _ _ F) in He. inversion He; subst e.
       apply find_some_in in F. destruct F. split; [assumption|exact Ha].
 Qed.
+
+Lemma NoDup_append : forall (A : Type) (l1 l2 : list A),
+    NoDup l1 -> NoDup l2 -> (forall x, In x l1 -> In x l2 -> False) -> NoDup (l1 ++ l2).
+Proof.
+  intros A l1. induction l1 as [|x r IH]; intros l2 N1 N2 D; cbn; [exact N2|]. inversion N1 as [|? ? Hn N1']; subst.
+  constructor.
+  - intro Hin. apply in_app_or in Hin. destruct Hin as [Hin|Hin]; [exact (Hn Hin)|exact (D x (or_introl eq_refl) Hin)].
+  - apply IH; [exact N1'|exact N2|]. intros y Hy1 Hy2. exact (D y (or_intror Hy1) Hy2).
+Qed.
+
+(** ** the state while the candidate chain is applied next to the active chain *)
+Section Twin.
+  Variable base : pstate.
+  Variable s0 : cst.
+  Hypothesis G0 : good base s0.
+  Variables (c fork : N) (ka kb : nat).
+  Notation l0 := (cores s0).
+  Notation t := (tip pstate ccmd s0).
+  Notation r0 := (root pstate ccmd s0).
+  Variable ec : ent.
+  Hypothesis Hc : cfind l0 c = Some ec.
+  Hypothesis Hf1 : fork = up l0 ka t.
+  Hypothesis Hf2 : fork = up l0 kb c.
+  Hypothesis Ka : Z.of_nat ka <= dep s0 t.
+  Hypothesis Kb : Z.of_nat kb <= dep s0 c.
+  Hypothesis Hmax : forall g i j, g = up l0 i t -> g = up l0 j c -> Z.of_nat i <= dep s0 t -> Z.of_nat j <= dep s0 c ->
+                                  hgt l0 g <= hgt l0 fork.
+
+  Let W0 : wf s0 := proj1 (proj1 G0).
+  Let K0 : scoh s0 := proj1 (proj2 (proj2 G0)).
+
+  Lemma t_found : exists et, cfind l0 t = Some et.
+  Proof. pose proof (proj1 G0) as Q. destruct Q as (_ & (e & He & _) & _). exists e. exact He. Qed.
+
+  Lemma hgt_t : forall i, Z.of_nat i <= dep s0 t -> hgt l0 (up l0 i t) = hgt l0 t - Z.of_nat i.
+  Proof. intros i Hi. destruct t_found as (et & Het). exact (proj1 (up_hgt_dep s0 t et i W0 K0 Het Hi)). Qed.
+  Lemma hgt_c : forall i, Z.of_nat i <= dep s0 c -> hgt l0 (up l0 i c) = hgt l0 c - Z.of_nat i.
+  Proof. intros i Hi. exact (proj1 (up_hgt_dep s0 c ec i W0 K0 Hc Hi)). Qed.
+  Lemma hgt_fork_t : hgt l0 fork = hgt l0 t - Z.of_nat ka.
+  Proof. rewrite Hf1. apply hgt_t. exact Ka. Qed.
+  Lemma hgt_fork_c : hgt l0 fork = hgt l0 c - Z.of_nat kb.
+  Proof. rewrite Hf2. apply hgt_c. exact Kb. Qed.
+
+  (* a block strictly above the fork on the candidate branch is not an ancestor-or-self of the tip *)
+  Lemma branches_disjoint : forall i k, (i < kb)%nat -> Z.of_nat k <= dep s0 t -> up l0 i c <> up l0 k t.
+  Proof.
+    intros i k Hi Hk Heq. pose proof (Hmax (up l0 k t) k i eq_refl (eq_sym Heq) Hk ltac:(lia)) as Hle.
+    rewrite <- Heq, hgt_c, hgt_fork_c in Hle by lia. lia.
+  Qed.
+
+  Definition twin (s : cst) (ia ib : nat) : Prop :=
+    frame s0 s /\ ginv base s /\ (ia <= ka)%nat /\ (ib <= kb)%nat /\
+    (forall k, is_act (cores s) (up l0 (ia + k) t)) /\
+    (forall i, (ib <= i < kb)%nat -> is_act (cores s) (up l0 i c)) /\
+    Z.of_N (napp _ _ s) = (hgt l0 t - Z.of_nat ia - hgt l0 r0 + 1) + Z.of_nat (kb - ib).
+
+  Lemma twin_exact : forall s ia ib, twin s ia ib ->
+      forall j, is_act (cores s) j -> (exists k, j = up l0 (ia + k) t) \/ (exists i, (ib <= i < kb)%nat /\ j = up l0 i c).
+  Proof.
+    intros s ia ib (F & G & Hia & Hib & HA & HB & Hn) j Hj.
+    pose proof G as ((W & _) & _ & _). pose proof (fr_static _ _ F) as S.
+    pose proof (fun x => hgt_static _ _ x S) as HS.
+    set (a := up l0 ia t).
+    assert (Haa : is_act (cores s) a) by (unfold a; replace ia with (ia + 0)%nat by lia; apply HA).
+    assert (Hha : hgt l0 a = hgt l0 t - Z.of_nat ia) by (apply hgt_t; lia).
+    destruct t_found as (et & Het). destruct (dep_facts s0 t et W0 K0 Het) as (Dt0 & _ & _).
+    set (na := Z.to_nat (hgt l0 t - Z.of_nat ia - hgt l0 r0)).
+    assert (Hna : Z.of_nat na = hgt l0 t - Z.of_nat ia - hgt l0 r0) by (unfold na, dep in *; rewrite Z2Nat.id; lia).
+    destruct (anc_list_active s na a W Haa) as [AL NDA].
+    { rewrite (fr_root _ _ F), !HS. lia. }
+    rewrite (anc_list_static _ _ na a S) in AL, NDA.
+    set (LB := map (fun i => up l0 i c) (seq ib (kb - ib))).
+    assert (NDB : NoDup LB).
+    { unfold LB. apply NoDup_map_inj_in; [|apply seq_NoDup]. intros x y Hx Hy Hxy. apply in_seq in Hx. apply in_seq in Hy.
+      pose proof (hgt_c x ltac:(lia)) as E1. pose proof (hgt_c y ltac:(lia)) as E2. rewrite Hxy in E1. lia. }
+    assert (HinA : forall x, In x (anc_list l0 na a) -> exists k, (k <= na)%nat /\ x = up l0 (ia + k) t).
+    { intros x Hx. destruct (anc_list_up _ _ _ _ Hx) as (k & Hk & ->). exists k. split; [exact Hk|]. unfold a. rewrite up_add. reflexivity. }
+    assert (NDL : NoDup (anc_list l0 na a ++ LB)).
+    { apply NoDup_append; [exact NDA|exact NDB|]. intros x Hx1 Hx2. destruct (HinA x Hx1) as (k & Hk & Ex).
+      unfold LB in Hx2. apply in_map_iff in Hx2. destruct Hx2 as (i & Ei & Hi). apply in_seq in Hi.
+      apply (branches_disjoint i (ia + k)); [lia|unfold dep in *; lia|congruence]. }
+    pose proof W as (ND & _ & _ & HN).
+    assert (Hincl : incl (anc_list l0 na a ++ LB) (act_ids (cores s))).
+    { intros x Hx. apply (act_ids_in _ _ ND). apply in_app_or in Hx. destruct Hx as [Hx|Hx].
+      - destruct (HinA x Hx) as (k & _ & ->). apply HA.
+      - unfold LB in Hx. apply in_map_iff in Hx. destruct Hx as (i & <- & Hi). apply in_seq in Hi. apply HB. lia. }
+    assert (Hlen : (length (act_ids (cores s)) <= length (anc_list l0 na a ++ LB))%nat).
+    { rewrite app_length, anc_list_length. unfold LB. rewrite map_length, seq_length. unfold act_ids. rewrite map_length. fold (nact (cores s)).
+      assert (Z.of_nat (nact (cores s)) = Z.of_N (napp pstate ccmd s)) by (rewrite HN, nat_N_Z; reflexivity). lia. }
+    apply (act_ids_in _ _ ND) in Hj.
+    pose proof (NoDup_length_incl NDL Hlen Hincl j Hj) as Hin. apply in_app_or in Hin. destruct Hin as [Hin|Hin].
+    - left. destruct (HinA j Hin) as (k & _ & ->). exists k. reflexivity.
+    - right. unfold LB in Hin. apply in_map_iff in Hin. destruct Hin as (i & <- & Hi). apply in_seq in Hi. exists i. split; [lia|reflexivity].
+  Qed.
+
+  (** generic facts about a twin state *)
+  Lemma c_not_root : forall i, (i < kb)%nat -> up l0 i c <> r0.
+  Proof. intros i Hi. destruct (dep_facts s0 c ec W0 K0 Hc) as (_ & _ & Hmin). apply Hmin. lia. Qed.
+  Lemma t_not_root : forall i, (i < ka)%nat -> up l0 i t <> r0.
+  Proof. intros i Hi. destruct t_found as (et & Het). destruct (dep_facts s0 t et W0 K0 Het) as (_ & _ & Hmin). apply Hmin. lia. Qed.
+
+  Lemma up_t_cases : forall k, (Z.of_nat k <= dep s0 t /\ hgt l0 (up l0 k t) = hgt l0 t - Z.of_nat k) \/ up l0 k t = r0.
+  Proof.
+    intros k. destruct (Z_le_gt_dec (Z.of_nat k) (dep s0 t)) as [l|g]; [left; split; [exact l|apply hgt_t; exact l]|right].
+    destruct t_found as (et & Het). eapply up_beyond; try eassumption. lia.
+  Qed.
+
+  Lemma c_vs_t : forall i k, (i < kb)%nat -> up l0 i c <> up l0 k t.
+  Proof.
+    intros i k Hi. destruct (up_t_cases k) as [[Hk _]|Hr]; [apply branches_disjoint; assumption|]. rewrite Hr. apply c_not_root. exact Hi.
+  Qed.
+
+  Lemma static_parent : forall s x, frame s0 s -> parent (cores s) x = parent l0 x.
+  Proof. intros s x F. apply parent_static. exact (fr_static _ _ F). Qed.
+
+  Lemma twin_find : forall s x, frame s0 s -> (exists e, cfind l0 x = Some e) -> exists b, bfind (blocks _ _ s) x = Some b /\ b_par _ b = parent l0 x /\ b_h _ b = hgt l0 x.
+  Proof.
+    intros s x F (e & He). pose proof (fr_static _ _ F x) as Sx. unfold sfind in Sx. rewrite He in Sx.
+    destruct (cfind (cores s) x) as [e'|] eqn:He'; [|discriminate]. cbn in Sx. inversion Sx as [[Hp Hh]].
+    destruct (core_find _ _ _ He') as (b & Fb & Cb). exists b. split; [exact Fb|]. unfold parent, hgt. rewrite He. rewrite <- Cb in Hp, Hh. split; [exact Hp|exact Hh].
+  Qed.
+
+  Lemma up_c_found : forall i, (i <= kb)%nat -> exists e, cfind l0 (up l0 i c) = Some e.
+  Proof. intros i Hi. apply (up_hgt_dep s0 c ec i W0 K0 Hc). lia. Qed.
+  Lemma up_t_found : forall i, (i <= ka)%nat -> exists e, cfind l0 (up l0 i t) = Some e.
+  Proof. intros i Hi. destruct t_found as (et & Het). apply (up_hgt_dep s0 t et i W0 K0 Het). lia. Qed.
+
+  (* the parent of the B-top is applied *)
+  Lemma twin_parent_act : forall s ia ib, twin s ia (S ib) -> is_act (cores s) (up l0 (S ib) c).
+  Proof.
+    intros s ia ib (F & G & Hia & Hib & HA & HB & Hn). destruct (Nat.eq_dec (S ib) kb) as [e|n].
+    - rewrite e, <- Hf2, Hf1. replace ka with (ia + (ka - ia))%nat by lia. apply HA.
+    - apply HB. lia.
+  Qed.
+End Twin.
